@@ -26,6 +26,213 @@ var solvers = []solverDef{
 	{"z3-4.8.12", func(f string, t int) []string { return []string{"z3", "-smt2", fmt.Sprintf("-T:%d", t), f} }, false},
 }
 
+// ---------- cone-of-influence slicing ----------
+// Every assertion is either a definition (= |sym| expr) or a fact. For one obligation only the
+// definitions of symbols reachable from its goal and reach variable, and the facts all of whose
+// symbols are in that cone, are needed; leaving the rest out only removes assumptions (sound)
+// and keeps queries of large functions small.
+
+type slicer struct {
+	header  []string          // options, sorts, unquoted declarations
+	decl    map[string]string // |sym| -> declare-fun line
+	defOf   map[string]int    // |sym| -> index into asserts
+	asserts []string
+	syms    [][]string
+	isDef   []bool
+	quant   []bool
+	factsOf map[string][]int
+}
+
+func quotedSyms(s string) []string {
+	var out []string
+	for i := 0; i < len(s); i++ {
+		if s[i] == '|' {
+			j := strings.IndexByte(s[i+1:], '|')
+			if j < 0 {
+				break
+			}
+			out = append(out, s[i:i+j+2])
+			i += j + 1
+		}
+	}
+	return out
+}
+
+func (e *Enc) newSlicer() *slicer {
+	sl := &slicer{decl: map[string]string{}, defOf: map[string]int{}, factsOf: map[string][]int{}}
+	sl.header = append(sl.header, "(set-option :produce-models true)", "(set-logic ALL)")
+	sl.header = append(sl.header, e.sortDecl...)
+	for _, d := range e.decls {
+		if strings.HasPrefix(d, "(declare-fun |") {
+			q := quotedSyms(d)
+			if len(q) > 0 && strings.HasPrefix(d, "(declare-fun "+q[0]+" ") {
+				if _, dup := sl.decl[q[0]]; !dup {
+					sl.decl[q[0]] = d
+					continue
+				}
+			}
+		}
+		sl.header = append(sl.header, d)
+	}
+	for i, a := range e.asserts {
+		sl.asserts = append(sl.asserts, a)
+		q := quotedSyms(a)
+		sl.syms = append(sl.syms, q)
+		isDef := false
+		if strings.HasPrefix(a, "(= |") && len(q) > 0 && strings.HasPrefix(a, "(= "+q[0]+" ") {
+			if _, dup := sl.defOf[q[0]]; !dup {
+				sl.defOf[q[0]] = i
+				isDef = true
+			}
+		}
+		sl.isDef = append(sl.isDef, isDef)
+		sl.quant = append(sl.quant, strings.Contains(a, "(forall "))
+		if !isDef {
+			for _, t := range q {
+				sl.factsOf[t] = append(sl.factsOf[t], i)
+			}
+		}
+	}
+	return sl
+}
+
+// query renders the sliced prelude for the given seed terms. full=false drops quantified facts.
+func (sl *slicer) query(full bool, seeds ...string) string {
+	need := map[string]bool{}
+	var work []string
+	add := func(s string) {
+		if !need[s] {
+			need[s] = true
+			work = append(work, s)
+		}
+	}
+	for _, sd := range seeds {
+		for _, s := range quotedSyms(sd) {
+			add(s)
+		}
+	}
+	// worklist closure: a needed symbol pulls in its definition's symbols and every fact that
+	// mentions it (facts relate values to allocation counters, slices to their bounds, ...)
+	factDone := map[int]bool{}
+	for len(work) > 0 {
+		s := work[len(work)-1]
+		work = work[:len(work)-1]
+		if i, ok := sl.defOf[s]; ok {
+			for _, t := range sl.syms[i] {
+				add(t)
+			}
+		}
+		if d, isDecl := sl.decl[s]; isDecl && !strings.Contains(d, " () ") {
+			continue // function symbols do not pull in every fact that uses them
+		}
+		for _, i := range sl.factsOf[s] {
+			if factDone[i] || (sl.quant[i] && !full) {
+				continue
+			}
+			factDone[i] = true
+			for _, t := range sl.syms[i] {
+				add(t)
+			}
+		}
+	}
+	// facts may mention function symbols (declared with arguments): those never have definitions
+	var sb strings.Builder
+	for _, h := range sl.header {
+		sb.WriteString(h)
+		sb.WriteString("\n")
+	}
+	include := make([]bool, len(sl.asserts))
+	for i := range sl.asserts {
+		if sl.isDef[i] {
+			q := sl.syms[i]
+			include[i] = need[q[0]]
+			continue
+		}
+		if !full && sl.quant[i] {
+			continue
+		}
+		ok := true
+		for _, t := range sl.syms[i] {
+			if !need[t] {
+				if d, isDecl := sl.decl[t]; isDecl && !strings.Contains(d, " () ") {
+					continue // a function symbol (spec function, sub-object function ...)
+				}
+				ok = false
+				break
+			}
+		}
+		include[i] = ok
+	}
+	declared := map[string]bool{}
+	emitDecl := func(s string) {
+		if d, ok := sl.decl[s]; ok && !declared[s] {
+			declared[s] = true
+			sb.WriteString(d)
+			sb.WriteString("\n")
+		}
+	}
+	// Definitions become define-fun macros in dependency order: no array-sorted equality atoms
+	// (which would trigger extensionality reasoning) and full sharing inside the solver.
+	var emitDef func(s string)
+	state := map[string]int{}
+	emitDef = func(s string) {
+		i, isDef := sl.defOf[s]
+		if !isDef || !include[i] {
+			emitDecl(s)
+			return
+		}
+		if state[s] != 0 {
+			return
+		}
+		state[s] = 1
+		for _, t := range sl.syms[i][1:] {
+			if t != s {
+				emitDef(t)
+			}
+		}
+		d := sl.decl[s]
+		k := strings.Index(d, " () ")
+		if k < 0 || declared[s] || os.Getenv("VCHECK_NODEFINE") != "" {
+			// not a plain constant (or already declared): keep it as an equation
+			emitDecl(s)
+			sb.WriteString("(assert ")
+			sb.WriteString(sl.asserts[i])
+			sb.WriteString(")\n")
+			state[s] = 2
+			return
+		}
+		sort := strings.TrimSuffix(d[k+4:], ")")
+		a := sl.asserts[i]
+		expr := a[len("(= "+s+" ") : len(a)-1]
+		declared[s] = true
+		sb.WriteString("(define-fun " + s + " () " + sort + " " + expr + ")\n")
+		state[s] = 2
+	}
+	for i := range sl.asserts {
+		if include[i] && sl.isDef[i] {
+			emitDef(sl.syms[i][0])
+		}
+	}
+	for i := range sl.asserts {
+		if include[i] && !sl.isDef[i] {
+			for _, t := range sl.syms[i] {
+				emitDef(t)
+			}
+		}
+	}
+	for s := range need {
+		emitDef(s)
+	}
+	for i, a := range sl.asserts {
+		if include[i] && !sl.isDef[i] {
+			sb.WriteString("(assert ")
+			sb.WriteString(a)
+			sb.WriteString(")\n")
+		}
+	}
+	return sb.String()
+}
+
 // prelude renders declarations and facts. With full=false quantified facts are dropped:
 // the weaker theory has more models, which is what model finding (counterexample
 // candidates, reachability checks) needs; proofs always use the full prelude.
@@ -82,7 +289,15 @@ type solveOpts struct {
 }
 
 // discharge runs the portfolio on one obligation.
-func discharge(o *Obligation, prelude, weak string, opts solveOpts, idx int, interest []interestTerm) {
+func discharge(o *Obligation, prelude, weak string, opts solveOpts, idx int, interest []interestTerm, sl *slicer) {
+	if sl != nil && os.Getenv("VCHECK_NOSLICE") == "" {
+		seeds := []string{o.Reach.S, o.Goal.S}
+		prelude = sl.query(true, seeds...)
+		for _, it := range interest {
+			seeds = append(seeds, it.T.S)
+		}
+		weak = sl.query(false, seeds...)
+	}
 	if o.Tainted != "" {
 		o.Verdict = "unsupported"
 		return
@@ -182,6 +397,7 @@ type job struct {
 	weak    *string
 	idx     int
 	interest []interestTerm
+	sl      *slicer
 }
 
 type interestTerm struct {
@@ -197,7 +413,7 @@ func dischargeAll(jobs []job, opts solveOpts, workers int) {
 		go func() {
 			defer wg.Done()
 			for j := range ch {
-				discharge(j.o, *j.prelude, *j.weak, opts, j.idx, j.interest)
+				discharge(j.o, *j.prelude, *j.weak, opts, j.idx, j.interest, j.sl)
 			}
 		}()
 	}
